@@ -26,33 +26,35 @@ Sides2 == UNION {{<< <<SubId(pr[1]), e>>, <<SubId(pr[2]), f>> >> : e \in Exps, f
                     pr \in {x \in (1..Len(Sub)) \X (1..Len(Sub)) : x[1] < x[2]}}
 SidesLE(n) == (IF n >= 0 THEN {<<>>} ELSE {}) \cup (IF n >= 1 THEN Sides1 ELSE {}) \cup (IF n >= 2 THEN Sides2 ELSE {})
 
-VARIABLES a, b, st, idx      \* st: "a" = side A chosen, "ab" = both chosen (leaf)
+VARIABLES v_a, v_b, v_st, v_idx      \* v_st: "a" = side A chosen, "ab" = both chosen (leaf)
 
-Init == CASE Source = "table"    -> st = "a" /\ b = <<>> /\ idx = 0 /\ \E u \in 0..NU : a = UMap(u)
-          [] Source = "compound" -> st = "a" /\ b = <<>> /\ idx = 0 /\ a \in SidesLE(2)
-          [] Source = "file"     -> st = "ab" /\ idx \in 1..(IF NFile < Stride THEN NFile ELSE Stride)
-                                    /\ a = FileSide(FileCases[idx].a) /\ b = FileSide(FileCases[idx].b)
-Next == CASE Source = "table"    -> st = "a" /\ st' = "ab" /\ \E v \in 1..NU : b' = UMap(v) /\ UNCHANGED <<a, idx>>
-          [] Source = "compound" -> st = "a" /\ st' = "ab" /\ b' \in (SidesLE(3 - Len(a)) \ {<<>>}) /\ UNCHANGED <<a, idx>>
-          [] Source = "file"     -> idx + Stride <= NFile /\ idx' = idx + Stride /\ st' = "ab"
-                                    /\ a' = FileSide(FileCases[idx'].a) /\ b' = FileSide(FileCases[idx'].b)
+Init == CASE Source = "table"    -> v_st = "a" /\ v_b = <<>> /\ v_idx = 0 /\ \E u \in 0..NU : v_a = UMap(u)
+          [] Source = "compound" -> v_st = "a" /\ v_b = <<>> /\ v_idx = 0 /\ v_a \in SidesLE(2)
+          [] Source = "file"     -> v_st = "ab" /\ v_idx \in 1..(IF NFile < Stride THEN NFile ELSE Stride)
+                                    /\ v_a = FileSide(FileCases[v_idx].a) /\ v_b = FileSide(FileCases[v_idx].b)
+Next == CASE Source = "table"    -> v_st = "a" /\ v_st' = "ab" /\ \E v \in 1..NU : v_b' = UMap(v) /\ UNCHANGED <<v_a, v_idx>>
+          [] Source = "compound" -> v_st = "a" /\ v_st' = "ab" /\ v_b' \in (SidesLE(3 - Len(v_a)) \ {<<>>}) /\ UNCHANGED <<v_a, v_idx>>
+          [] Source = "file"     -> v_idx + Stride <= NFile /\ v_idx' = v_idx + Stride /\ v_st' = "ab"
+                                    /\ v_a' = FileSide(FileCases[v_idx'].a) /\ v_b' = FileSide(FileCases[v_idx'].b)
 
-Leaf == st = "ab"
+Leaf == v_st = "ab"
 UOf(A) == IF A = <<>> THEN 0 ELSE A[1][1][3]
 
 (* ---- lemmas *)
 \* the machine's dispatch agrees with the ideal rule except on the named deviations
 C04Rules == {"linear", "inverse", "nounit_rad", "reject"}
-Refines == Leaf /\ Rule(a, b) \in C04Rules => (Agrees(Rule(a, b), MRule(a, b)) \/ ConvTags(a, b) \cap KnownDevs # {})
+Refines == Leaf /\ Rule(v_a, v_b) \in C04Rules => (Agrees(Rule(v_a, v_b), MRule(v_a, v_b)) \/ ConvTags(v_a, v_b) \cap KnownDevs # {})
 \* the rule is symmetric (the one-directional number -> radian case apart)
-Symmetric == Leaf /\ a # <<>> /\ b # <<>> => Rule(a, b) = Rule(b, a)
-          \/ {Rule(a, b), Rule(b, a)} \subseteq {"log:log_lin", "log:lin_log", "log:log_ratio", "log:ratio_log", "log:b_np", "log:np_b", "log:log_same", "log:log_offset"}
+Symmetric == Leaf /\ v_a # <<>> /\ v_b # <<>> =>
+     \/ Rule(v_a, v_b) = Rule(v_b, v_a)
+     \/ "nounit_rad" \in {Rule(v_a, v_b), Rule(v_b, v_a)}
+     \/ {Rule(v_a, v_b), Rule(v_b, v_a)} \subseteq {"log:log_lin", "log:lin_log", "log:log_ratio", "log:ratio_log", "log:b_np", "log:np_b", "log:log_same", "log:log_offset"}
 \* table source: the fast single-unit rule is the general rule; linear is an equivalence; inverse o inverse = linear
 Composition ==
-  Source = "table" /\ Leaf => LET u == UOf(a)  v == UOf(b) IN
-     /\ Plain(u) /\ Plain(v) => SRule(u, v) = Rule(a, b)
+  Source = "table" /\ Leaf => LET u == UOf(v_a)  v == UOf(v_b) IN
+     /\ Plain(u) /\ Plain(v) => SRule(u, v) = Rule(v_a, v_b)
      /\ Plain(u) => SRule(u, u) = "linear"
-     /\ Plain(u) /\ Plain(v) => \A w \in 1..NU : w \notin Related(v) => SRule(v, w) \notin {"linear", "inverse"}
+     /\ Plain(u) /\ Plain(v) => \A w \in 1..NU : w \notin Related(v) /\ Plain(w) => SRule(v, w) \notin {"linear", "inverse"}
      /\ Plain(u) /\ Plain(v) => \A w \in Related(v) :
           /\ SRule(u, v) = "linear"  /\ SRule(v, w) = "linear"  => SRule(u, w) = "linear"
           /\ SRule(u, v) = "inverse" /\ SRule(v, w) = "inverse" => SRule(u, w) = "linear"
@@ -61,7 +63,7 @@ Composition ==
 \* the value obligations are consistent on the exact model (factors that are powers of ten, rational magnitudes):
 \* reversible, and independent of the path
 ValueModel ==
-  Source = "table" /\ Leaf => LET u == UOf(a)  v == UOf(b)  r == SRule(u, v) IN
+  Source = "table" /\ Leaf => LET u == UOf(v_a)  v == UOf(v_b)  r == SRule(u, v) IN
      Plain(u) /\ Plain(v) /\ FExact(u) /\ FExact(v) /\ r \in {"linear", "inverse"} /\ u > 0 =>
         \A x \in ModelXs :
            /\ ConvQ(SRule(v, u), ConvQ(r, x, u, v), v, u) = x
@@ -71,11 +73,11 @@ ValueModel ==
 (* ---- emission *)
 SideJson(A) == [k \in 1..Len(A) |-> [p |-> IdP(A[k][1]), u |-> IdU(A[k][1]), e |-> A[k][2]]]
 Record ==
-  LET r == Rule(a, b)  m == MRule(a, b) IN
-  [id |-> idx, a |-> Join(Render(a)), b |-> Join(Render(b)), sa |-> SideJson(a), sb |-> SideJson(b),
-   rule |-> r, mrule |-> m, expect |-> ExpectTerm(r, a, b), inter |-> InterTerm(a),
-   tags |-> ConvTags(a, b), known |-> ConvTags(a, b) \cap KnownDevs # {}, agrees |-> Agrees(r, m)]
+  LET r == Rule(v_a, v_b)  m == MRule(v_a, v_b) IN
+  [id |-> v_idx, a |-> Join(Render(v_a)), b |-> Join(Render(v_b)), sa |-> SideJson(v_a), sb |-> SideJson(v_b),
+   rule |-> r, mrule |-> m, expect |-> ExpectTerm(r, v_a, v_b), inter |-> InterTerm(v_a),
+   tags |-> ConvTags(v_a, v_b), known |-> ConvTags(v_a, v_b) \cap KnownDevs # {}, agrees |-> Agrees(r, m)]
 Header == [magnitudes |-> Magnitudes, array |-> ArrayMags]
 EmitInv == Emit /\ Leaf => PrintT(ToJson(Record))
-EmitHeader == Emit /\ st = "a" /\ a = <<>> => PrintT(ToJson(Header))
+EmitHeader == Emit /\ v_st = "a" /\ v_a = <<>> => PrintT(ToJson(Header))
 =============================================================================
